@@ -119,10 +119,12 @@ BLOCKS = {
 _models = {}
 
 
-def harness_model(bname):
-    """A one-block owner Model, built the way shipped models are."""
-    if bname in _models:
-        return _models[bname]
+def harness_model(bname, expr=False):
+    """A one-block owner Model, built the way shipped models are. With expr=True the block's input (and gain K, where it has
+    one) are given as equation strings, which the block API admits: u = '(ua) - (ub)', K = '(Ka) + (Kb)'."""
+    key = (bname, expr)
+    if key in _models:
+        return _models[key]
     from andes.core import ModelData, Model, NumParam, Algeb
     import andes.core.block as blk
     spec = BLOCKS[bname]
@@ -142,11 +144,15 @@ def harness_model(bname):
             self.group = 'Undefined'
             self.u = Algeb(info='input', tex_name='u')
             kw = spec['kw'](self)
+            if expr:
+                kw['u'] = '(ua) - (ub)'
+                if 'K' in kw and bname != 'WashoutOrLag':      # there K also feeds the K == 0 detector (a comparison on a value)
+                    kw['K'] = '(Ka) + (Kb)'
             self.B = cls(**kw)
 
     HModel.__name__ = 'H' + bname
     m = HModel(ss, None)
-    _models[bname] = m
+    _models[key] = m
     return m
 
 
@@ -198,6 +204,10 @@ def block_system(model, p, flags):
         ns = dict(base)
         ns.update({k: float(v) for k, v in zip(unk, vals)})
         ns['u'] = float(u)
+        # expression-string arguments: (ua) - (ub) == u and (Ka) + (Kb) == K exactly in floating point
+        ns.update(ua=2.0 * float(u), ub=float(u))
+        if 'K' in p:
+            ns.update(Ka=0.5 * p['K'], Kb=0.5 * p['K'])
         nsd = pyeval.Namespace(ns)
         out = []
         for nme in unk:
@@ -231,7 +241,9 @@ def block_system(model, p, flags):
 def check_block(ctx, case):
     bname, p, svals = case['block'], dict(case['params']), case['s']
     spec = BLOCKS[bname]
-    model = harness_model(bname)
+    model = harness_model(bname, expr=bool(case.get('expr')))
+    if case.get('expr'):
+        ctx.count('arguments:equation_strings')
     flags = set_flags(model, p)
     xs, ys, T, A, b, c0, affine = block_system(model, p, flags)
     nx = len(xs)
@@ -261,13 +273,15 @@ def check_block(ctx, case):
             ctx.fail('transfer_function_differs',
                      dict(block=bname, params=p, s=[sr, si], implemented=[got.real, got.imag],
                           documented=[complex(exp).real, complex(exp).imag], flags=flags),
-                     sig=dict(block=bname, cls=case['cls']))
+                     sig=dict(block=bname, cls=case['cls'], expr=bool(case.get('expr'))))
     # -- steady state: declared initial values balance every equation -----------------------------
     rule = spec.get('steady_u')
     u0 = case['u0'] if rule is None else (p[rule] if isinstance(rule, str) else rule)
     ns = dict(p)
     ns.update(flags)
-    ns.update({'u': float(u0), 'sys_f': 60.0, 'sys_mva': 100.0, 'dae_t': 0.0})
+    ns.update({'u': float(u0), 'sys_f': 60.0, 'sys_mva': 100.0, 'dae_t': 0.0, 'ua': 2.0 * float(u0), 'ub': float(u0)})
+    if 'K' in p:
+        ns.update(Ka=0.5 * p['K'], Kb=0.5 * p['K'])
     vals = {n: 0.0 for n in unk}
     for _ in range(len(unk) + 1):
         for n in unk:
@@ -323,7 +337,8 @@ def block_cases(draw, bname):
             else:
                 cls = 'special:%s=%g' % (k, p[k])
     svals = [(float(round(draw(st.floats(-3, 3)), 3)), float(round(draw(st.floats(0.1, 30)), 3))) for _ in range(3)]
-    return dict(block=bname, params=p, s=svals, u0=float(round(draw(st.floats(-3, 3)), 3)), cls=cls)
+    return dict(block=bname, params=p, s=svals, u0=float(round(draw(st.floats(-3, 3)), 3)), cls=cls,
+                expr=draw(st.sampled_from([False, False, True])))
 
 
 def camp_blocks(ctx):
